@@ -137,6 +137,16 @@ pub fn quick_inputs(seed: u64, stride: u64, lite: bool) -> Inputs {
             }
         }
     }
+    // the top of the range (where the PQ exponent of 78.84 amplifies every error of the fast log2) and the 10-bit codes
+    if !lite {
+        for d in 0..(1u32 << 17) {
+            v.push(ONE_BITS - d);
+        }
+    }
+    for k in 0..=1023u32 {
+        v.push((k as f32 / 1023.0).to_bits());
+        v.push(((k as f32 - 64.0).max(0.0) / 876.0).min(1.0).to_bits());
+    }
     // subnormals and the smallest normals
     for x in 0..256u32 {
         v.push(x);
@@ -278,6 +288,81 @@ fn run(ctx: &Ctx, roundtrip: bool) {
             }
         }
     });
+    // ---- chained inputs: component k+1 is the library's own output for component k (also across pixel
+    // boundaries), and tiny images (5 pixels = 15 components, so that loop tails and their neighbours cover
+    // every position); both judged per component by the same oracle / round-trip rule
+    let mut extra_evals = 0u64;
+    {
+        let base: Vec<f32> = {
+            let mut rng = crate::gen::Rng::new(ctx.seed, 0xC4A1);
+            let mut v: Vec<f32> = (0..=256).map(|i| i as f32 / 256.0).collect();
+            v.extend([0.01f32, 0.0031308, 0.04045, 0.018, 0.081, 0.5, 1.0 / 12.0, 0.003_162_277_6]);
+            for _ in 0..(if lite { 512 } else { 4096 }) {
+                v.push(if rng.coin() { rng.unit() as f32 } else { rng.unit_bits() });
+            }
+            v
+        };
+        let step = if lite { 64 } else { 16 };
+        let tiny: Vec<f32> = (0..total).step_by(step).map(|i| inputs.get(i)).collect();
+        for (ti, t) in TRANSFERS.iter().copied().enumerate() {
+            if only_t.is_some_and(|o| o != t) {
+                continue;
+            }
+            for dir in 0..ndir {
+                let f = |v: Vec<[f32; 3]>| if dir == 0 { lin_of(t, v) } else { gam_of(t, v) };
+                // b = f(a) from a plain batch of greys
+                let Ok(fb) = f(base.iter().map(|a| [*a; 3]).collect()) else { continue };
+                let mut stream: Vec<f32> = Vec::with_capacity(base.len() * 2 + 2);
+                for (a, b) in base.iter().zip(fb.iter()) {
+                    stream.push(*a);
+                    stream.push(b[0]);
+                }
+                while stream.len() % 3 != 0 {
+                    stream.push(0.25);
+                }
+                let mut check_image = |img: Vec<[f32; 3]>, what: &str| {
+                    let n = img.len();
+                    let (res, want_rt): (Result<Vec<[f32; 3]>, String>, bool) = if roundtrip { (f(img.clone()).and_then(|l| gam_of(t, l)), true) } else { (f(img.clone()), false) };
+                    let Ok(out) = res else { return };
+                    if out.len() != n {
+                        return;
+                    }
+                    let mut w = Worst::<At>::new();
+                    for (p, q) in img.iter().zip(out.iter()) {
+                        for c in 0..3 {
+                            let x = p[c];
+                            if !(0.0..=1.0).contains(&x) {
+                                continue;
+                            }
+                            let want = if want_rt { x as f64 } else { model(t, dir, x as f64) };
+                            w.upd((q[c] as f64 - want).abs(), (x, q[c], want));
+                        }
+                    }
+                    let budget = if roundtrip { budget_c10(t) } else { budget_c03(t, dir) };
+                    if !(w.err < budget) {
+                        if let Some((x, got, want)) = w.at {
+                            ev::violation(
+                                format!("{prop}|{what}|{t:?}|{}", if roundtrip { "gamma->linear->gamma" } else if dir == 0 { "to_linear" } else { "to_gamma" }),
+                                format!("{what}: x={x:e} ({:#010x}) gives {got:e}, want {want:e} (|err| {:.3e} >= {budget:e}); the same value converts correctly on its own", x.to_bits(), w.err),
+                                J::obj().set("kind", if roundtrip { "roundtrip" } else { "curve" }).set("transfer", format!("{t:?}")).set("dir", dir).set("x_bits", x.to_bits()).set("context", what),
+                            );
+                        }
+                    }
+                };
+                extra_evals += stream.len() as u64;
+                check_image(stream.chunks(3).map(|c| [c[0], c[1], c[2]]).collect(), "chained-components");
+                // tiny images
+                for img in tiny.chunks(15) {
+                    if img.len() == 15 {
+                        extra_evals += 15;
+                        check_image(img.chunks(3).map(|c| [c[0], c[1], c[2]]).collect(), "five-pixel-image");
+                    }
+                }
+            }
+        }
+    }
+    ev::observe("chained_and_tiny_image_component_checks", extra_evals);
+    ev::add_evals(extra_evals);
     let g = worst.lock().unwrap();
     let mut table = Vec::new();
     let mut ncurves = 0u64;
